@@ -208,6 +208,21 @@ func prepare(race bool, engine string) *build {
 	}
 	b := &build{scratch: scratch, goBin: goBin, env: env}
 	harness := filepath.Join(verifDir, "harness")
+	repo := "/repo"
+	var modArgs []string
+	if r := os.Getenv("VERIF_REPO"); r != "" && r != "/repo" {
+		// run against another tree (a scratch worktree with a seeded change)
+		repo = r
+		gm, err := os.ReadFile(filepath.Join(harness, "go.mod"))
+		if err != nil {
+			die(2, "%v", err)
+		}
+		ngm := strings.Replace(string(gm), "=> /repo", "=> "+repo, 1)
+		os.WriteFile(filepath.Join(scratch, "go.mod"), []byte(ngm), 0o644)
+		gs, _ := os.ReadFile(filepath.Join(repo, "go.sum"))
+		os.WriteFile(filepath.Join(scratch, "go.sum"), gs, 0o644)
+		modArgs = []string{"-modfile=" + filepath.Join(scratch, "go.mod")}
+	}
 	simgen := filepath.Join(verifDir, "bin", "simgen")
 	if _, err := os.Stat(simgen); err != nil {
 		if out, err := run(harness, env, goBin, "build", "-o", simgen, "./simgen"); err != nil {
@@ -215,13 +230,14 @@ func prepare(race bool, engine string) *build {
 			die(2, "building simgen failed: %v\n%s", err, out)
 		}
 	}
-	if out, err := run(harness, env, simgen, "-go", goBin, "-repo", "/repo", "-out", filepath.Join(scratch, "gen"), "-extra", filepath.Join(harness, "extra")); err != nil {
+	if out, err := run(harness, env, simgen, "-go", goBin, "-repo", repo, "-out", filepath.Join(scratch, "gen"), "-extra", filepath.Join(harness, "extra")); err != nil {
 		os.RemoveAll(scratch)
 		die(2, "simgen failed (missing anchor or repository does not build): %v\n%s", err, out)
 	}
 	overlay := filepath.Join(scratch, "gen", "overlay.json")
 	b.worker = filepath.Join(scratch, "simworker")
-	args := []string{"build", "-tags", "verif", "-overlay", overlay, "-o", b.worker}
+	args := append([]string{"build"}, modArgs...)
+	args = append(args, "-tags", "verif", "-overlay", overlay, "-o", b.worker)
 	if race {
 		args = append(args, "-race")
 	}
